@@ -56,6 +56,46 @@ func (r rawTokenReader) Token() (xml.Token, error) {
 	return r.RawToken()
 }
 
+// resolvedTokenReader reads the output of an xml.Encoder back as tokens whose
+// names carry their namespace.
+// Namespace declarations are dropped from the attributes: whatever encodes the
+// tokens again declares the namespaces it finds in the names, and a prefix
+// that was never resolved ("xml:lang" read as a raw token) would be declared
+// as if it were a namespace.
+type resolvedTokenReader struct {
+	*xml.Decoder
+}
+
+func (r resolvedTokenReader) Token() (xml.Token, error) {
+	tok, err := r.Decoder.Token()
+	if start, ok := tok.(xml.StartElement); ok {
+		attr := start.Attr[:0]
+		for _, a := range start.Attr {
+			if a.Name.Space == "xmlns" || (a.Name.Space == "" && a.Name.Local == "xmlns") {
+				continue
+			}
+			attr = append(attr, a)
+		}
+		start.Attr = attr
+		tok = start
+	}
+	return tok, err
+}
+
+// valueReader returns the tokens that encode v.
+// Values that create their own tokens have them passed on unchanged.
+func valueReader(v interface{}) (xml.TokenReader, error) {
+	d, err := tokenDecoder(v)
+	if err != nil {
+		return nil, err
+	}
+	switch v.(type) {
+	case xmlstream.Marshaler, xml.TokenReader:
+		return rawTokenReader{Decoder: d}, nil
+	}
+	return resolvedTokenReader{Decoder: d}, nil
+}
+
 // EncodeXML writes the XML encoding of v to the stream.
 //
 // See the documentation for xml.Marshal for details about the conversion of Go
@@ -68,11 +108,11 @@ func EncodeXML(w xmlstream.TokenWriter, v interface{}) error {
 		_, err := wt.WriteXML(w)
 		return err
 	}
-	d, err := tokenDecoder(v)
+	r, err := valueReader(v)
 	if err != nil {
 		return err
 	}
-	_, err = xmlstream.Copy(w, rawTokenReader{Decoder: d})
+	_, err = xmlstream.Copy(w, r)
 	if err != nil {
 		return err
 	}
@@ -101,11 +141,11 @@ func EncodeXMLElement(w xmlstream.TokenWriter, v interface{}, start xml.StartEle
 		_, err := wt.WriteXML(ew)
 		return err
 	}
-	d, err := tokenDecoder(v)
+	r, err := valueReader(v)
 	if err != nil {
 		return err
 	}
-	_, err = xmlstream.Copy(ew, rawTokenReader{Decoder: d})
+	_, err = xmlstream.Copy(ew, r)
 	if err != nil {
 		return err
 	}
